@@ -277,8 +277,17 @@ def claims(tier):
     cl.append(Claim("vlq_roundtrip", c17_vlq_roundtrip, pre=[lambda v: 0 <= v <= 2 ** 28 - 1], timeout=600, bounds="v: every integer 0..2^28-1 (symbolic): reader(writer(v)) == v"))
     cl.append(Claim("vlq_reader", c17_vlq_reader, pre=[lambda b0, b1, b2, b3, n: 1 <= n <= 4 and 0 <= b0 <= 255 and 0 <= b1 <= 255 and 0 <= b2 <= 255 and 0 <= b3 <= 255], timeout=600, bounds="every sequence of 1..4 bytes with proper continuation bits (symbolic) == standard value"))
     nv = 5 if q else len(VALS)
+    def fits(shape, vi):
+        from fractions import Fraction
+        for key, meter, entries in _build(shape, [Note("C", 4), Note("E", 4)], VALS[vi], "C", (3, 4)):
+            if sum(Fraction(1) / Fraction(v).limit_denominator(10 ** 6) for v, _ in entries) > Fraction(meter[0], meter[1]):
+                return False
+        return True
+
     for shape in SHAPES:
         for vi in range(nv):
+            if not fits(shape, vi):
+                continue
             cl.append(Claim("program[%s,v=%s]" % (shape, round(VALS[vi], 3)), c17_program, params={"shape": shape, "vi": vi, "fewkeys": q}, group="c17_program", pre=[lambda pi, o1, o2, vel, ch, vi, ki, inr: 0 <= pi < len(POOL) and 1 <= o1 <= 8 and 1 <= o2 <= 8 and 1 <= vel <= 127 and 0 <= ch <= 15 and vi == P["vi"] and 0 <= ki < (6 if P.get("fewkeys") else 30) and 0 <= inr <= 127], timeout=1500 if q else 3200, per_path=90, bounds="shape %s, value %s, 3/4; 4 name pairs; %s keys; octaves 1..8, velocity 1..127, channel 0..15, instrument number 0..127 symbolic; with and without MIDI instrument" % (shape, round(VALS[vi], 3), "6" if q else "all 30")))
     cl.append(Claim("tracks", c17_tracks, pre=[lambda ntr, o1, vel: 1 <= ntr <= 4 and 1 <= o1 <= 7 and 1 <= vel <= 127], timeout=1200, bounds="1..4 tracks; octave and velocity symbolic"))
     cl.append(Claim("names", c17_names, pre=[lambda n1, n2, o1: 0 <= n1 < 9 and 0 <= n2 < 9 and 1 <= o1 <= 7], timeout=1500 if q else 3000, bounds="two tracks with names of length 0, 1, 126..129, 255, 256, 300 (all pairs); octave symbolic"))
